@@ -1312,6 +1312,22 @@ class EvolveAppTask(BaseEvolutionTask):
                                                     database=database_name)
             upgrade_method = app_upgrade_info.get('upgrade_method')
             evolutions = get_evolution_sequence(app)
+
+            if evolutions and evolver.database_state.has_model(Evolution):
+                # The app may not be new to this database after all. If it
+                # never has any models to install here (for instance, all
+                # of its models are routed to another database), it never
+                # gets an app signature, and would be seen as new every
+                # time. Don't record its evolutions more than once.
+                applied_evolutions = set(get_applied_evolutions(
+                    app,
+                    database=database_name))
+
+                evolutions = [
+                    label
+                    for label in evolutions
+                    if label not in applied_evolutions
+                ]
         else:
             orig_upgrade_method = app_sig.upgrade_method
 
